@@ -380,6 +380,22 @@ func (fr *frame) applyContract(b *ssa.BasicBlock, st *state, ins ssa.Instruction
 			c.assume(implies(bc, vc.trClause(trPost, cl)))
 		}
 	}
+	if ct.Defines != nil && len(results) > 0 {
+		trD := bind(pre, pre, results)
+		trD.depth = 1
+		val, _ := trD.expr(ct.Defines)
+		c.assume(implies(bc, fmt.Sprintf("(= %s %s)", results[0], val)))
+		vc.assumed["definition: the result of "+ct.Ref+" is the value of "+ct.DefinesSrc+" (the function is deterministic and has no effect on pre-existing objects)"] = true
+		if callee != nil {
+			if ms := vc.ma.sets[callee]; ms != nil {
+				for k := range ms.real {
+					if !strings.HasPrefix(k, "G_") {
+						c.unsup("defines: " + ct.Ref + " writes " + k)
+					}
+				}
+			}
+		}
+	}
 	vc.lemmaInstances(pre, st, bc)
 	// ghost events emitted by the callee (definitional)
 	for _, em := range ct.Emits {
